@@ -809,6 +809,16 @@ def replay(rec):
         if site[1] == "Quantity(str)" and got[0] == "ok" and ref[0] == "ok" and not hasattr(ref[1], "_units") and dict(got[1]._units) == {}:
             got = ("ok", got[1].magnitude)
         compare(acc, site[0], site[1], nt, tokens, s, ref, got)
+        if tuple(site) not in {tuple(v["site"]) for v in acc.violations}:
+            # the answer may depend on what the process did before (registries built earlier in the same worker): redo
+            # that history — the isolation and aliasing clauses — and ask again
+            scratch = core.Acc(PROPERTY)
+            run_isolation(scratch)
+            run_aliasing(scratch)
+            got = pint_eval(fn, s)
+            if site[1] == "Quantity(str)" and got[0] == "ok" and ref[0] == "ok" and not hasattr(ref[1], "_units") and dict(got[1]._units) == {}:
+                got = ("ok", got[1].magnitude)
+            compare(acc, site[0], site[1], nt, tokens, s, ref, got)
     sites = {tuple(v["site"]) for v in acc.violations}
     return tuple(site) in sites, {"sites_seen": sorted(sites)[:20]}
 
